@@ -70,7 +70,7 @@ class C01(SMSpec):
 
     def jobs(self, tier):
         if tier == "quick":
-            return [mkjob(s, 3, 2) for s in ("S1", "S3", "S4", "S5")]
+            return [mkjob(s, 3, 2) for s in ("S1", "S3", "S4", "S5")] + [mkjob("S4", 2, 1, ext_per_iter=2, variant=3), mkjob("S3", 2, 1, ext_per_iter=2, variant=3)]
         return ([mkjob(s, 4, 2, variant=1) for s in ("S1", "S3", "S4", "S5")]
                 + [mkjob(s, 3, 3, ext_per_iter=2, nsn_depth=2, variant=2, double_nsn=True) for s in ("S1", "S3", "S4", "S5")])
 
@@ -103,7 +103,8 @@ class C04(SMSpec):
 
     def jobs(self, tier):
         if tier == "quick":
-            return [mkjob(s, 3, 2) for s in ("S1", "S2", "S3", "S4")] + [mkjob("S8", 3, 1)]
+            return ([mkjob(s, 3, 2) for s in ("S1", "S2", "S3", "S4")] + [mkjob("S8", 3, 1)]
+                    + [mkjob("S4", 2, 1, ext_per_iter=2, variant=2), mkjob("S8", 2, 0, ext_per_iter=2, variant=2), mkjob("S1", 2, 1, ext_per_iter=2, variant=2)])
         return ([mkjob(s, 4, 2, variant=3) for s in ("S1", "S2", "S3", "S4", "S8")]
                 + [mkjob(s, 3, 3, ext_per_iter=2, nsn_depth=2, variant=4) for s in ("S1", "S2", "S4", "S8")])
 
@@ -135,7 +136,8 @@ class C02(SMSpec):
     def jobs(self, tier):
         # externals restricted to none / engage(): the engagement history is symbolic, transitions come from expiry
         if tier == "quick":
-            return [mkjob(s, 6, 0, ext=False) for s in ("S2", "S6", "S7")] + [mkjob("S1", 5, 1, ext=False)]
+            return ([mkjob(s, 6, 0, ext=False) for s in ("S2", "S6", "S7")] + [mkjob("S1", 5, 1, ext=False)]
+                    + [mkjob("S6", 5, 0, ext=False, rewrite=True, variant=1), mkjob("S2", 5, 1, ext=False, rewrite=True, variant=1)])
         return ([mkjob(s, 8, 1, ext=False, variant=1, rewrite=True) for s in ("S2", "S6")]
                 + [mkjob("S7", 8, 0, ext=False, variant=2, rewrite=True), mkjob("S1", 7, 1, ext=False, variant=1),
                    mkjob("S3", 6, 1, ext=False, variant=5)])
